@@ -38,6 +38,61 @@ theorem estSize_mono {n n' m m' : Nat} (h1 : n ≤ n') (h2 : m ≤ m') : estSize
   have := Nat.mul_le_mul_left Gen.TxBuild.outSize h2
   omega
 
+-- ------------------------------------------------------------------ sum of the requested outputs
+
+theorem foldOuts_eq : ∀ (l : List Nat) (acc r : Nat),
+    l.foldlM (fun acc v => if acc + v > maxAmount then Except.error Model.Fee.Err.amount else Except.ok (acc + v)) acc = .ok r →
+    r = acc + l.sum := by
+  intro l
+  induction l with
+  | nil => intro acc r h; simp only [List.foldlM, pure, Except.pure, Except.ok.injEq] at h; subst h; simp
+  | cons v t ih =>
+    intro acc r h
+    simp only [List.foldlM] at h
+    by_cases hv : acc + v > maxAmount
+    · rw [if_pos hv] at h; cases h
+    · rw [if_neg hv] at h
+      have := ih _ _ h
+      simp only [List.sum_cons]; omega
+
+theorem foldOuts_err : ∀ (l : List Nat) (acc : Nat) (e : Model.Fee.Err),
+    l.foldlM (fun acc v => if acc + v > maxAmount then Except.error Model.Fee.Err.amount else Except.ok (acc + v)) acc = .error e →
+    e = .amount := by
+  intro l
+  induction l with
+  | nil => intro acc e h; simp only [List.foldlM, pure, Except.pure] at h; cases h
+  | cons v t ih =>
+    intro acc e h
+    simp only [List.foldlM] at h
+    by_cases hv : acc + v > maxAmount
+    · rw [if_pos hv] at h; injection h with h; exact h.symm
+    · rw [if_neg hv] at h; exact ih _ _ h
+
+theorem foldOuts_ok : ∀ (l : List Nat) (acc : Nat), acc + l.sum ≤ maxAmount →
+    l.foldlM (fun acc v => if acc + v > maxAmount then Except.error Model.Fee.Err.amount else Except.ok (acc + v)) acc = .ok (acc + l.sum) := by
+  intro l
+  induction l with
+  | nil => intro acc _; simp [List.foldlM, pure, Except.pure]
+  | cons v t ih =>
+    intro acc h
+    simp only [List.sum_cons] at h
+    simp only [List.foldlM]
+    rw [if_neg (by omega)]
+    have := ih (acc + v) (by omega)
+    simp only [List.sum_cons, bind, Except.bind]
+    rw [this]
+    congr 1; omega
+
+theorem sumOuts_eq (outs : List Nat) (r : Nat) (h : sumOuts outs = .ok r) : r = outs.sum := by
+  have := foldOuts_eq outs 0 r h; omega
+
+theorem sumOuts_err (outs : List Nat) (e : Model.Fee.Err) (h : sumOuts outs = .error e) : e = .amount :=
+  foldOuts_err outs 0 e h
+
+theorem sumOuts_ok (outs : List Nat) (h : outs.sum ≤ maxAmount) : sumOuts outs = .ok outs.sum := by
+  have := foldOuts_ok outs 0 (by omega)
+  simpa [sumOuts] using this
+
 -- ------------------------------------------------------------------ findEligible
 
 theorem items_length (s : Sel) (coins : List Coin) (inv : Inv s coins) : s.items.length ≤ s.k + 1 := by
